@@ -108,7 +108,7 @@ Definition C08_guarded_statement : Prop :=
   /\ (forall t fuel bs rest, C08_guard_buffer_empty t = false -> decode_fuel fuel t bs = DEmpty rest -> rest = [])
   (* no_short_fixed_width *)
   /\ (forall t bs v rest k, C08_guard_short_read t = false -> decode t bs = Ok (v, rest) -> announced t bs = Some k -> k <= zlen bs)
-  /\ (forall t w bs v rest, C08_guard_short_read t = false -> fixed_width t = Some w -> decode t bs = Ok (v, rest) -> (w <= length bs)%nat)
+  /\ (forall t w bs v rest, C08_guard_short_read t = false -> width_of t = Some w -> decode t bs = Ok (v, rest) -> (w <= length bs)%nat)
   (* decode_all_exact *)
   /\ (forall e (items : list (bytes * val)),
         (forall b v, In (b, v) items -> b <> [] /\ forall fuel tail, decode_fuel fuel e (b ++ tail) = DOk v tail) ->
